@@ -33,12 +33,25 @@ def check(h):
     addr_of = {name: str(st.address) for name, st in h.stacks.items()}
     name_of = {v: k for k, v in addr_of.items()}
     # I-Am knowledge: (receiver stack, announcer addr) -> (seq, maxapdu, seg)
+    # an entry (seq, None, None) voids the knowledge: the instance that had announced itself from this address announced
+    # itself from another address since (it moved away; whoever lives there now has not said anything yet)
     iam = {}
+    cur = {}        # (receiver, addr) -> instance whose announcement is in force
+    where = {}      # (receiver, instance) -> addr it announced itself from last
     for e in w.events:
         if e[2] == 'iam':
-            iam.setdefault((e[3], e[4]), []).append((e[0], e[6], e[7]))
+            node, addr, inst = e[3], e[4], e[5]
+            old = where.get((node, inst))
+            if old is not None and old != addr and cur.get((node, old)) == inst:
+                iam.setdefault((node, old), []).append((e[0], None, None))
+                cur[(node, old)] = None
+                w.probe('c12-knowledge-voided-by-move')
+            iam.setdefault((node, addr), []).append((e[0], e[6], e[7]))
+            cur[(node, addr)] = inst
+            where[(node, inst)] = addr
     # requests delivered to a node: (node, src, invoke) -> list of (seq, header)
     delivered_req = {}
+    sa_rx = {}
     first_seg_rx = {}      # (node, src, invoke, dir) -> proposed window of the first segment delivered
     for f in w.rx:
         n, a = txn.decode_lan_frame(f['octets'])
@@ -46,6 +59,9 @@ def check(h):
             continue
         if a['type'] == wire.T_CONF and (not a['seg'] or a['seq'] == 0):
             delivered_req.setdefault((f['node'], f['src'], a['invoke']), []).append((f['seq'], a))
+            if a['sa']:
+                # a request that accepts a segmented response is itself an announcement: that peer can receive segments
+                sa_rx.setdefault((f['node'], f['src']), []).append(f['seq'])
         if a['type'] in (wire.T_CONF, wire.T_CACK) and a.get('seg') and a['seq'] == 0:
             first_seg_rx.setdefault((f['node'], f['src'], a['invoke'], a['type']), []).append((f['seq'], a['win']))
     reported = set()
@@ -91,12 +107,14 @@ def check(h):
                     start_oct[k3] = (f['seq'], f['octets'])
             st0 = start_of.get((node, dst, a['invoke']), f['seq'])
             known = [x for x in iam.get((node, dst), []) if x[0] < st0]
-            if known:
+            if known and known[-1][1] is not None:
                 _, pmax, pseg = known[-1]
                 if alen > pmax:
                     viol('C12.a', 'request-exceeds-iam', '%s sent a %d-octet %s request APDU to %s whose I-Am (delivered earlier) announced max-APDU %d'
                          % (node, alen, 'segmented' if a['seg'] else 'unsegmented', dst, pmax), segmented=a['seg'], excess=min(alen - pmax, 7))
-                if a['seg'] and pseg not in SEG_RX:
+                if a['seg'] and pseg not in SEG_RX and any(known[-1][0] < q < st0 for q in sa_rx.get((node, dst), ())):
+                    w.probe('c12-segment-receiver-known-from-request-header')
+                elif a['seg'] and pseg not in SEG_RX:
                     viol('C12.c', 'segmented-to-nonreceiver', '%s sent a segmented request to %s whose I-Am announced %s' % (node, dst, pseg))
             if a['seg'] and a['seq'] == 0 and not (1 <= a['win'] <= 127):
                 viol('C12.e', 'proposed-window-range', '%s proposed window %d in a first request segment' % (node, a['win']))
@@ -106,6 +124,13 @@ def check(h):
                 continue
             rseq, rh = reqs[-1]
             lim = wire.MAX_APDU.get(rh['maxresp'])
+            # the header field has six code points and rounds down; an I-Am delivered earlier from that address states the
+            # exact figure.  The library answers up to the larger of the two -- both are "what that peer announced".
+            kn = [x for x in iam.get((node, dst), []) if x[0] < rseq]
+            if lim is not None and kn and kn[-1][1] is not None and kn[-1][1] > lim:
+                if alen > lim:
+                    w.probe('c12-response-within-iam-above-header')
+                lim = kn[-1][1]
             if lim is not None and alen > lim:
                 viol('C12.a', 'response-exceeds-request-limit', '%s sent a %d-octet %s APDU to %s in answer to a request announcing max-APDU %d'
                      % (node, alen, a['name'] + ('(segment)' if a.get('seg') else ''), dst, lim), segmented=bool(a.get('seg')), excess=min(alen - lim, 7))
@@ -140,14 +165,19 @@ def check(h):
             L_rs = txn.pt_service_len(r.rs)
             known = [x for x in iam.get((r.c, r.peer), []) if r.act0 is not None and x[0] < r.act0]
             infeasible = None
-            if known:
+            if known and known[-1][1] is not None:
                 _, pmax, pseg = known[-1]
                 if L_rq + 4 > pmax:
                     if c['seg'] not in SEG_TX:
                         infeasible = 'request needs segmentation, requester cannot transmit segments'
-                    elif pseg not in SEG_RX:
+                    elif pseg not in SEG_RX and not any(known[-1][0] < q < r.act0 for q in sa_rx.get((r.c, r.peer), ())):
                         infeasible = 'request needs segmentation, peer I-Am says %s' % pseg
-            if infeasible is None:
+            kn_s = [x for x in iam.get((r.s, addr_of.get(r.c)), []) if r.act0 is not None and x[0] < r.act0]
+            if infeasible is None and kn_s and kn_s[-1][1] is not None and kn_s[-1][1] > c['maxApdu']:
+                # the responder was told more from the requester's address than the requester is configured for (an earlier
+                # owner of that address): what it can build is not predictable from the two configurations alone
+                w.probe('c12-responder-knows-more-than-configured')
+            elif infeasible is None:
                 lim = c['maxApdu']
                 if L_rs + 3 > lim:
                     ms = wire.MAX_SEGS[_maxsegs_code(c['maxSegs'])]
@@ -251,8 +281,8 @@ def gen_desc(seed, idx):
         # addresses; the real stacks announce themselves at seeded points in between and repeat that later.  What a
         # requester may send to a peer is still bounded by what was announced FROM THAT PEER'S ADDRESS.
         iam = False
-        stacks.append({'name': 'raw0', 'addr': 30, 'role': 'raw'})
-        stacks.append({'name': 'raw1', 'addr': 31, 'role': 'raw'})
+        stacks.append({'name': 'raw0', 'addr': 30, 'role': 'raw', 'spoofing': True})
+        stacks.append({'name': 'raw1', 'addr': 31, 'role': 'raw', 'spoofing': True})
         tt = 0.02
         announced = set()
         for k in range(rng.randint(3, 7)):
@@ -265,7 +295,13 @@ def gen_desc(seed, idx):
                 cands = [2000, 2001] + ([1001] if 'c0' not in announced else []) + ([1010, 1010] if 's0' not in announced else [])
                 dev = rng.choice(cands)
                 apdu = wire.unconf_req(0, wire.tag_objid(8, dev) + wire.tag_uint(rng.choice(txngen.APDU_SIZES)) + wire.tag_enum(rng.randint(0, 3)) + wire.tag_uint(999))
-                ops.append({'t': round(tt, 3), 'op': 'raw', 'node': rng.choice(['raw0', 'raw1']), 'dst': '*', 'octets': wire.encode_npdu(apdu).hex()})
+                op = {'t': round(tt, 3), 'op': 'raw', 'node': rng.choice(['raw0', 'raw1']), 'dst': '*', 'octets': wire.encode_npdu(apdu).hex()}
+                # the address a real stack will announce itself from may have belonged to another device before
+                if dev >= 2000 and rng.random() < 0.3:
+                    free = [a for (n_, a) in (('c0', 1), ('s0', 10)) if n_ not in announced]
+                    if free:
+                        op['src'] = rng.choice(free)
+                ops.append(op)
         for node in ('c0', 's0'):
             if node not in announced and rng.random() < 0.85:
                 tt += 0.02
@@ -279,6 +315,21 @@ def gen_desc(seed, idx):
     if rng.random() < 0.2 and len(stacks) == 2:
         faults = {'mode': 'hashed', 'rates': {rng.choice(['drop', 'delay']): 0.05}, 'salt': rng.randrange(1 << 30),
                   'delays': [0.001, 1.0, 3.0], 'gaps': [0.0]}
+    if len(stacks) == 2 and rng.random() < 0.08:
+        # both directions segmented and the server's segment-acks late or lost: the reply overtakes the final request
+        # segment-ack, the window negotiation of the reply runs through the client's request-side code
+        big = [x for x in lens if x + 8 > min(caps[0]['maxApdu'], caps[1]['maxApdu'])] or lens
+        for op in ops:
+            if op['op'] == 'req' and op['c'] == 'c0':
+                op['rq'] = rng.choice(big)
+                op['rs'] = rng.choice(big)
+        faults = {'mode': 'hashed', 'rates': {rng.choice(['delay', 'delay', 'drop']): 0.5}, 'roles': ['segack-s'], 'salt': rng.randrange(1 << 30),
+                  'delays': [0.001, 0.3], 'gaps': [0.0]}
+    elif iam and len(stacks) == 2 and rng.random() < 0.06:
+        # the peer's I-Am is late (arrives after the first transmission) and the first transmission is lost: the RETRY is a
+        # new sending decision and has to respect what was announced in between
+        faults = {'mode': 'explicit', 'list': [{'kind': 'delay', 'd': rng.choice([1.5, 2.5, 3.5]), 'ord': rng.choice([0, 1])},
+                                               {'kind': 'drop', 'ord': 2}]}
     return {'prop': 'C12', 'scenario': 'txn', 'seed': H(seed, 'C12run', idx) & 0x7fffffff, 'stacks': stacks,
             'iam': iam, 'ops': ops, 'faults': faults, 'caps': {'frames': 40000, 'ticks': 600000}}
 
